@@ -971,10 +971,29 @@ func evaluate(P *Prog, prop, tier string, spec *propSpec, findings []Finding) (*
 			}
 		}
 	}
+	// a rule that alarms in both views is reported from the view in which fewer of its
+	// obligations fail (the more specific report: the helper no longer hides the rest)
+	nbadA, nbadB := map[string]int{}, map[string]int{}
+	for _, o := range c.Obls {
+		if (o.Status == "violated" || o.Status == "undecided") && !isOpenFinding(findings, prop, o) {
+			nbadA[o.Rule]++
+		}
+	}
+	for _, o := range cq.Obls {
+		if (o.Status == "violated" || o.Status == "undecided") && !isOpenFinding(findings, prop, o) {
+			nbadB[o.Rule]++
+		}
+	}
+	fromB := map[string]bool{}
+	for r := range bad {
+		if okInView[r] || (cnt[r] > 0 && nbadB[r] < nbadA[r]) {
+			fromB[r] = true
+		}
+	}
 	var rescued []string
 	var merged []*Obl
 	for _, o := range c.Obls {
-		if bad[o.Rule] && okInView[o.Rule] {
+		if fromB[o.Rule] {
 			continue
 		}
 		merged = append(merged, o)
@@ -986,7 +1005,7 @@ func evaluate(P *Prog, prop, tier string, spec *propSpec, findings []Finding) (*
 	}
 	sort.Strings(rescued)
 	for _, o := range cq.Obls {
-		if bad[o.Rule] && okInView[o.Rule] {
+		if fromB[o.Rule] {
 			if o.Detail != "" {
 				o.Detail += " "
 			}
@@ -994,7 +1013,7 @@ func evaluate(P *Prog, prop, tier string, spec *propSpec, findings []Finding) (*
 			merged = append(merged, o)
 		}
 	}
-	if len(rescued) > 0 {
+	if len(fromB) > 0 {
 		c.Obls = merged
 		for k, v := range cq.ruleDocs {
 			c.ruleDocs[k] = v
